@@ -207,11 +207,12 @@ class MultiplexAdapter(H.Adapter):
                 kw["edge_metadata"] = metas
         return MultiplexHypergraph(**kw)
 
-    def r_add_nodes(self, h, ns, metas):
+    def r_add_nodes(self, h, ns, metas, skip_first=False):
         if metas is None:
             h.add_nodes(list(ns))
         else:
-            h.add_nodes(list(ns), node_metadata={n: metas[i] for i, n in enumerate(ns)})
+            h.add_nodes(list(ns), node_metadata={n: metas[i] for i, n in enumerate(ns)
+                                                 if not (skip_first and i == 0)})
 
     def r_add_edge(self, h, r, w, meta):
         kw = {}
